@@ -37,6 +37,22 @@ def meta_rules(facts, rep):
     for setter, acc in (("last_modified_time", "last_modified()"), ("compression_method", "compression()"), ("large_file", "max()")):
         good = setter in calls and acc in toks
         ok &= rep.check(good, rule, "options:%s" % setter, where(rc, se[0][1]["span"]), "options.%s(file.%s)" % (setter, acc), "options.%s is not derived from the source entry" % setter)
+    # ... on EVERY path that reaches start_entry (a setter applied only under a condition on the source's value -- "only if the
+    # timestamp is valid", "only if the method is supported" -- makes the copy differ from its source exactly when the condition fails)
+    from engine.paths import paths as _paths
+    missing = set()
+    np_ = 0
+    for p in _paths(rc, max_paths=20000):
+        names = [e[1].split("::")[-1] for e in p["effects"]]
+        if "start_entry" not in names:
+            continue
+        np_ += 1
+        before = names[:names.index("start_entry")]
+        for setter in ("last_modified_time", "compression_method", "large_file"):
+            if setter not in before:
+                missing.add(setter)
+    ok &= rep.check(np_ >= 1 and not missing, rule, "options:unconditional", where(rc, se[0][1]["span"]), "timestamp, method and large-file flag are copied on every path to start_entry",
+                    "raw copy applies %s only on some paths: entries for which the condition fails get a default instead of the source's value" % sorted(missing))
     good = "unix_permissions" in calls and "unix_mode()" in toks
     ok &= rep.check(good, rule, "options:unix_permissions", where(rc, se[0][1]["span"]), "permissions copied when the source has a mode", "permissions are not copied from the source")
     bad = [c for c in calls if c in ("with_deprecated_encryption", "compression_level")]
@@ -139,3 +155,7 @@ def run(ctx, rep):
     from rules.shared_codec import writer_table
     writer_table(facts, rep, "C14-LFH", facts.one(r"^write::write_local_file_header$"), "LFH", ctx.spec("appnote.json"), Codec(facts), tail_optional=("extra",))
     rep.floor("C14-LFH", 8)
+    from rules.shared_zip64 import pair_rules
+    pair_rules(ctx, facts, rep, rule="C14-Z64", side="write")   # a copy of a ZIP64-sized entry carries its sizes in the 64-bit slots they belong to
+    from rules.C02 import limit_rules
+    limit_rules(facts, rep)            # reported as C14/C02-LIMIT: a copy may be renamed to ANY valid name (up to 65535 bytes)
